@@ -178,7 +178,7 @@ def check_start_row(fname, b, result):
     EVALS['start:' + fname] += 1
     I0 = [I0] if G.has_node(I0) else list(I0)
     R0 = b.get('initial_recovereds')
-    R0 = [] if R0 is None else ([R0] if (not isinstance(R0, (list, set, frozenset, range, np.ndarray)) and G.has_node(R0)) else list(R0))
+    R0 = [] if R0 is None else ([R0] if (not isinstance(R0, (list, set, range, np.ndarray)) and G.has_node(R0)) else list(R0))   # same rule as the library: a node of G is a single node
     N = G.order()
     mode, t, D, sts = _series(fname, model, b, result)
     if t is None or len(t) == 0:
